@@ -7,7 +7,7 @@ from fdlstatic import cfg as cfg_lib
 from fdlstatic.ctx import Ctx, assigned_names, kwarg
 from fdlstatic.model import AnalysisError, unparse, walk_function, walk_stmts
 from fdlstatic.report import RuleSet
-from fdlstatic.rules import common
+from fdlstatic.rules import common, ownrule
 
 BUILD = 'fiddle._src.building.build'
 
@@ -283,7 +283,10 @@ def run(ctx: Ctx, rs: RuleSet, tier: str):
   # ---- message path
   _message_path(ctx, rs)
   # ---- OWN
-  # OWN is added by fdlstatic.rules.own once available
+  ownrule.run_entry_points(
+      ctx, rs, 'OWN.build-readonly', [BUILD], inputs={BUILD: ['buildable']},
+      statement='no mutation sink reachable from build() acts on an alias of '
+      'the configuration (also on the failure path)')
 
 
 def _inside_handler(outer_h, node) -> bool:
